@@ -1,6 +1,38 @@
 """Per-property claim texts for MANIFEST.json (edited by hand; tools/gen_manifest.py renders it)."""
 
 CHECKS = {
+ "C01": dict(
+   text="Solver shows, for every coefficient vector of each of the 7 stored shapes, every temperature limit set and every temperature (inside and outside the fitted range), that DailyModel._predict_submodel (inherited unchanged by BillingModel) equals the documented piecewise formula evaluated from the JSON fields alone, that predicted_unc is the stored f_unc, that the vector form round-trips (from_np_arrays(to_np_array)), and that the segment limits influence the result only through the documented end-pinning. At every path witness the public API (DailyModel/BillingModel from_dict -> to_json -> from_json) is additionally exercised concretely: identical document, bit-identical predictions, timezone/warnings/disqualifications kept.",
+   note="pydantic-core validation/serialisation and json float repr are C-level: exercised concretely per path witness, not quantified; hourly and CalTRACK-hourly families and settings profiles are outside the claim; floats modelled as reals; known finding C11-bp-at-Tmax excluded by region.",
+   ref="DESIGN.md 3 C01"),
+ "C04": dict(
+   text="The real fit()/predict() wrappers of DailyModel, BillingModel and HourlyModel and HourlyModel._model_fit_is_acceptable are executed on every combination of data-object class, disqualification-list length (0..2), override flag, fitted flag, timezone pair, GHI configuration (solver-enumerated forks) and on symbolic CVRMSE / cvrmse_adj / pnrmse_adj (incl. None) and thresholds; the solver shows the refusal/acceptance verdict and the poor-fit disqualification are exactly the stated ones. Persistence of stored disqualifications through to_json/from_json is checked concretely for daily and billing.",
+   note="_fit/_adaptive_fit/_predict are stubs returning fresh symbols (whether the numerical fit succeeds is outside the claim); data objects are shells of the real classes; hourly SerializeModel storage outside the claim.",
+   ref="DESIGN.md 3 C04"),
+ "C05": dict(
+   text="Self-composition inside one symbolic path: the real DailyModel._predict (with _initialize_data, _meter_segment, _predict_submodel, kernels) runs on a temperature-only frame and on the same temperatures with an arbitrary observed column (own values, own NaN mask, solver-chosen); every prediction, load, uncertainty and split label produced with usage is proven term-equal to the temperature-only one, for all values, on 4 split layouts and several tz-aware indexes; BillingModel monthly aggregation is compared for two observed columns sharing a NaN mask.",
+   note="rows bounded (2-4); coefficients of the stored model concrete; hourly (sklearn) and CalTRACK hourly (patsy) outside the claim.",
+   ref="DESIGN.md 3 C05"),
+ "C06": dict(
+   text="(a) DailyModel._predict on tz-aware daily indexes around every DST transition of the zone catalogue with symbolic values/NaN states: output index == input index, chronological, prediction finite exactly where temperature (and usage) is present. (b) _get_dst_indices + HourlyModel._get_feature_matrices(correct_dst) + _transform_dst executed on hourly indexes around each transition (transition day first/middle/last of the span) with symbolic feature and prediction vectors: 24 slots per day, slot s holds the hour whose wall clock is s, inverse mapping returns one prediction per real hour (skipped hour absent, repeated hour twice) - shown for all values.",
+   note="zones/transitions are an enumerated catalogue executed through pytz/pandas (not solver-quantified): quick 6 zones x 2021, thorough 18 zones x 2000-2037; finiteness of hourly predictions (sklearn) outside the claim; fractional-hour shifts outside (b).",
+   ref="DESIGN.md 3 C06"),
+ "C07": dict(
+   text="The real DailyModel._predict is executed on frames whose temperature/observed cells are symbolic and whose state (value / NaN / +inf; usage column present or absent) is chosen by the solver for every row: per row predicted present <=> observed present, missing temperature => consumption masked, missing consumption => no prediction, observed values unchanged, and sum(observed)-sum(predicted) equals the row-wise sum, for every value and every pattern on 3 (thorough 4) rows, several split layouts and indexes (DST day, gap, unsorted).",
+   note="rows bounded; a cell has a value iff finite; stored model coefficients concrete; billing aggregation is C19.",
+   ref="DESIGN.md 3 C07"),
+ "C12": dict(
+   text="The optimiser is a nondeterministic stub returning ANY vector of its box; for every such vector and every baseline temperature the solver compares the curve the objective scored (evaluate_hdd_tidd_cdd_smooth/_hdd_tidd_cdd/_c_hdd_tidd(_smooth)/_tidd) with OptimizedResult.eval of the kept coefficients and with DailyModel._predict_submodel of the named coefficients, and shows the stored coefficients are admissible for their declared shape (ordering, range, slope signs, non-zero declared slopes, smoothing >= 0, intercept in its box, type <-> coefficients present, key/name consistent) on every path of _set_model_key/_refine_model/reduce_model/get_k/get_full_model_x/fix_full_model_x/from_np_arrays.",
+   note="box contract stated in harness/c12.box; OptimizedResult.__init__ bypassed (acf, std, scipy t-quantile, np.partition not encodable): f_unc is a free non-negative symbol; what NLopt returns is outside the claim; known finding C12-H excluded by a 4-part region, all 4 parts shown necessary.",
+   ref="DESIGN.md 3 C12"),
+ "C13": dict(
+   text="DailyModel._combinations is executed with the 5 split flags, the 4 ellipsoid verdicts and the 6 (season x day type) day counts symbolic: every candidate list on every path is shown to contain the unsplit model, to consist of exact covers of the 6 cells, and to use no split the flags/filter forbid or the counts cannot support (>= 30 days per separate season, >= 8 weekend days per component) for all count values. Routing: for all 84 (month, weekday) pairs under default and two custom maps, every one of the 48 candidate strings selects the day with exactly one component, the one of its season/day type. _best_combination returns the minimum criterion (first on ties) for all criterion values (k <= 4/6 candidates).",
+   note="ellipsoid_split_filter and _combination_selection_criteria are stubs (free booleans / free reals); df_meter is a duck-typed stand-in for the three count expressions; NaN criteria outside the claim.",
+   ref="DESIGN.md 3 C13"),
+ "C19": dict(
+   text="BillingModel.predict's aggregation block runs on pandas' real resample machinery with every daily value symbolic and solver-chosen NaN states: one row per calendar (bi)month, predicted/observed/heating/cooling = sum of member days, temperature = mean, uncertainty = root-sum-square, grand totals equal at daily/monthly/bi-monthly level, for all values on enumerated spans (month boundaries, gaps, partial months, DST, year end) and zones; argument catalogue: None-like -> daily, monthly/bimonthly accepted, anything else ValueError.",
+   note="spans/timezones enumerated; DailyModel._predict stubbed by an arbitrary daily frame in the main cases and real in the composition case; sqrt modelled by s>=0, s*s==x.",
+   ref="DESIGN.md 3 C19"),
  "C11": dict(
    text="For every admissible coefficient vector of each of the 7 stored shapes and every temperature (unbounded reals, 1-2 evaluation points) the solver shows: flat segment, closed-form line/smoothed curve, monotonicity, Lipschitz continuity with the fitted slopes, load sign/exclusivity/additivity - on every execution path of the real _predict_submodel/get_full_model_x/fix_full_model_x/get_smooth_coeffs/full_model code. Bounded only in the number of simultaneous evaluation points; stronger than any temperature sweep because balance-point ties and bound-hitting coefficient orderings are solver-chosen.",
    note="floats modelled as reals (witnesses replayed in float64 on the jitted kernels); exp uninterpreted with sound axioms; numba assumed to compile the kernels faithfully; admissible domain = harness/dailyref.domain; known finding C11-bp-at-Tmax excluded by region.",
@@ -9,9 +41,9 @@ CHECKS = {
 
 _NOT_BUILT = "check not built yet in this session (planned, see DESIGN.md 9)"
 NA = {
- "C01": _NOT_BUILT, "C02": _NOT_BUILT, "C04": _NOT_BUILT, "C05": _NOT_BUILT, "C06": _NOT_BUILT, "C07": _NOT_BUILT,
- "C08": _NOT_BUILT, "C09": _NOT_BUILT, "C10": _NOT_BUILT, "C12": _NOT_BUILT, "C13": _NOT_BUILT, "C14": _NOT_BUILT,
- "C16": _NOT_BUILT, "C18": _NOT_BUILT, "C19": _NOT_BUILT, "C20": _NOT_BUILT,
+ "C02": _NOT_BUILT, 
+ "C08": _NOT_BUILT, "C09": _NOT_BUILT, "C10": _NOT_BUILT, "C14": _NOT_BUILT,
+ "C16": _NOT_BUILT, "C18": _NOT_BUILT, "C20": _NOT_BUILT,
  "C03": "reproducibility quantifies over process histories, thread counts, JIT caches and RNG state of NLopt/scikit-learn/BLAS behind FFI; none of that is a function of a symbolic input, so solver-based checking of the Python code cannot decide it (DESIGN.md 4)",
  "C15": "recovery of a generating curve is a statement about the optimum found by compiled NLopt DIRECT+SBPLX over a 365-point robust loss; with the optimiser as a nondeterministic stub the property is false by construction, and the optimiser itself cannot be encoded (DESIGN.md 4)",
  "C17": "every in-scope hourly input takes the autocorrelation interpolation path (numpy.ma, argpartition, pandas interpolate on float arrays) which cannot carry symbolic values; stubbing it leaves nothing of the property (DESIGN.md 4)",
